@@ -27,7 +27,7 @@ def handleLine (tbl : Array (Nat × Nat)) (line : String) : String :=
       | "size" => Value.handleSize payload impl
       | "merge" => Types.handleMerge payload impl
       | "json" => JsonD.handle payload impl
-      | "vm" => VMD.handle payload impl
+      | "vm" => EvmD.handleVm payload impl
       | "vm2" => VMD.handle2 payload impl
       | "unify" => UnifyD.handle payload impl
       | "truth" => TruthD.handle payload impl
@@ -38,7 +38,7 @@ def handleLine (tbl : Array (Nat × Nat)) (line : String) : String :=
       | "frag" => IdiomD.handleFrag payload impl
       | "evm" => EvmD.handle payload impl
       | "tc" => TCD.handle tbl payload impl
-      | "pipeline" => PipelineD.handle payload impl
+      | "pipeline" => PipelineD.handle tbl payload impl
       | "orders" => PipelineD.handleOrders payload impl
       | _ => ("unknown-family", "ok")
     m ++ "\t" ++ o
@@ -49,7 +49,7 @@ partial def loop (tbl : Array (Nat × Nat)) (h : IO.FS.Stream) (out : IO.FS.Stre
   if line.isEmpty then return ()
   let line := (line.dropEndWhile (fun c => c == '\n' || c == '\r')).toString
   -- the 10,000-entry hash table is only built when a request needs it
-  let tbl := if tbl.isEmpty && (line.startsWith "lift\t" || line.startsWith "tc\t") then LiftD.slotTable else tbl
+  let tbl := if tbl.isEmpty && (line.startsWith "lift\t" || line.startsWith "tc\t" || line.startsWith "pipeline\t") then LiftD.slotTable else tbl
   if !line.isEmpty then out.putStrLn (handleLine tbl line)
   loop tbl h out
 
